@@ -185,19 +185,13 @@ def solve_scipy(
 
     # The "problem appears linear" note is derived from a SciPy warning. Under
     # Python's default once-per-location rule that warning is delivered only the
-    # first time in a process, so the note (and with it Solution.message) depended
-    # on which solves had run before: always deliver it while this solve runs.
-    warning_filters = warnings.catch_warnings()
-    filters_entered = False
+    # first time in a process, so the note depended on which solves had run before.
+    # Forget that SciPy has shown it already (only that one entry: installing a
+    # filter or entering catch_warnings would reset the once-per-location state of
+    # every warning in the process and replace warnings.filters).
+    _forget_delta_grad_warning()
 
     try:
-        # (entered inside the try block, so that an interrupt arriving right here is
-        # undone by the finally clause as well)
-        warning_filters.__enter__()
-        filters_entered = True
-        warnings.filterwarnings(
-            "always", message=r"delta_grad == 0\.0", category=UserWarning
-        )
         # Temporarily override warning handling during solve
         warnings.showwarning = warning_handler
 
@@ -222,8 +216,6 @@ def solve_scipy(
         )
     finally:
         warnings.showwarning = old_showwarning
-        if filters_entered:
-            warning_filters.__exit__(None, None, None)
 
     solve_time = time.perf_counter() - start_time
 
@@ -335,6 +327,24 @@ def solve_scipy(
         message=message,
         solve_time=solve_time,
     )
+
+
+def _forget_delta_grad_warning() -> None:
+    """Drop the 'delta_grad == 0.0' entries from SciPy's once-per-location registries."""
+    import sys
+
+    for name, module in list(sys.modules.items()):
+        if not name.startswith("scipy.optimize"):
+            continue
+        registry = getattr(module, "__warningregistry__", None)
+        if not registry:
+            continue
+        for key in [
+            k
+            for k in list(registry)
+            if isinstance(k, tuple) and str(k[0]).startswith("delta_grad == 0.0")
+        ]:
+            registry.pop(key, None)
 
 
 def _compute_initial_point(
